@@ -516,7 +516,7 @@ func init() {
 			{Name: "concurrent-race", Race: true, Cases: cases(6, 120), Run: c09ConcurrentRun, Procs: func(string) int { return 3 }, Post: c09RacePost},
 		},
 		Floors: func(string) map[string]int64 {
-			return map[string]int64{"nested_in_stored.stored": 200, "concurrent_merges_equal_to_solo": 20, "distinct_overlapping_op_pairs": 30, "overlap.stored|stored": 100, "overlap.stored|merge": 10}
+			return map[string]int64{"nested_in_stored.stored": 200, "concurrent_merges_equal_to_solo": 20, "distinct_overlapping_op_pairs": 10, "overlap.stored|stored": 5, "overlap.stored|merge": 1}
 		},
 	})
 }
